@@ -21,6 +21,13 @@ pub fn bounded<T>(cap: usize) -> (Sender<T>, Receiver<T>) {
     (Sender { ch: ch.clone() }, Receiver { ch })
 }
 #[derive(Debug, PartialEq, Eq, Clone, Copy)] pub struct RecvError;
+#[derive(Debug, PartialEq, Eq, Clone, Copy)] pub enum RecvTimeoutError { Timeout, Disconnected }
+impl fmt::Display for RecvTimeoutError { fn fmt(&self, f: &mut fmt::Formatter) -> fmt::Result { f.write_str(match self { RecvTimeoutError::Timeout => "timed out waiting on receive operation", RecvTimeoutError::Disconnected => "channel is empty and disconnected" }) } }
+impl std::error::Error for RecvTimeoutError {}
+impl RecvTimeoutError { pub fn is_timeout(&self) -> bool { matches!(self, RecvTimeoutError::Timeout) } pub fn is_disconnected(&self) -> bool { matches!(self, RecvTimeoutError::Disconnected) } }
+#[derive(Debug, PartialEq, Eq, Clone, Copy)] pub struct ReadyTimeoutError;
+impl fmt::Display for ReadyTimeoutError { fn fmt(&self, f: &mut fmt::Formatter) -> fmt::Result { f.write_str("timed out waiting on select") } }
+impl std::error::Error for ReadyTimeoutError {}
 impl fmt::Display for RecvError { fn fmt(&self, f: &mut fmt::Formatter) -> fmt::Result { f.write_str("receiving on an empty and disconnected channel") } }
 impl std::error::Error for RecvError {}
 impl fmt::Display for TryRecvError { fn fmt(&self, f: &mut fmt::Formatter) -> fmt::Result { f.write_str(match self { TryRecvError::Empty => "receiving on an empty channel", TryRecvError::Disconnected => "receiving on an empty and disconnected channel" }) } }
@@ -66,6 +73,16 @@ impl<T> Receiver<T> {
             None => Err(RecvError),
         }
     }
+    /// timed receive: the time-out may fire at any moment (see the parking_lot shim); the duration is ignored
+    pub fn recv_timeout(&self, _d: std::time::Duration) -> Result<T, RecvTimeoutError> {
+        point(Op::RecvTimed(self.ch.id));
+        if detsched::last_timed_out() { return Err(RecvTimeoutError::Timeout); }
+        match self.ch.q.lock().unwrap().pop_front() {
+            Some(t) => { with_obj(self.ch.id, |o| if let Obj::Chan { len, .. } = o { *len -= 1 }); Ok(t) }
+            None => Err(RecvTimeoutError::Disconnected),
+        }
+    }
+    pub fn recv_deadline(&self, _d: std::time::Instant) -> Result<T, RecvTimeoutError> { self.recv_timeout(std::time::Duration::ZERO) }
     pub fn try_iter(&self) -> impl Iterator<Item = T> + '_ { std::iter::from_fn(move || self.try_recv().ok()) }
     pub fn iter(&self) -> impl Iterator<Item = T> + '_ { std::iter::from_fn(move || self.recv().ok()) }
     pub fn len(&self) -> usize { self.ch.q.lock().unwrap().len() }
@@ -90,6 +107,14 @@ impl<'a> Select<'a> {
         let ready = self.stub_ready_set();
         if ready.is_empty() { Err(()) } else { Ok(ready[choose(ready.len())]) }
     }
+    pub fn ready_timeout(&mut self, _d: std::time::Duration) -> Result<usize, ReadyTimeoutError> {
+        point(Op::SelectReadyTimed(self.live()));
+        if detsched::last_timed_out() { return Err(ReadyTimeoutError); }
+        let ready = self.stub_ready_set();
+        if ready.is_empty() { return Err(ReadyTimeoutError); }
+        Ok(ready[choose(ready.len())])
+    }
+    pub fn ready_deadline(&mut self, _d: std::time::Instant) -> Result<usize, ReadyTimeoutError> { self.ready_timeout(std::time::Duration::ZERO) }
     pub fn ready(&mut self) -> usize {
         point(Op::SelectReady(self.live()));
         let ready = self.stub_ready_set();
